@@ -23,6 +23,7 @@ package types
 //@   AccumulatedCommitStoreKey Round2InfoStoreKey Round2InfoCountStoreKey ConfirmStoreKey
 //@   ComplainsWithStatusStoreKey ConfirmComplainCountStoreKey DEStoreKey DEQueueStoreKey SigningStoreKey
 //@   PartialSignatureCountStoreKey PartialSignatureStoreKey SigningAttemptStoreKey MembersStoreKey ConfirmsStoreKey PartialSignaturesStoreKey
+//@   Round1InfosStoreKey Round2InfosStoreKey AccumulatedCommitsStoreKey ComplainsWithStatusesStoreKey
 // layout fact (trusted, key-layout): ConfirmStoreKey(g, m) = ConfirmsStoreKey(g) || be64(m), and nothing else is stored
 // under that prefix - a key below a group's confirm prefix is a confirm record of that group
 //@ axiom confirmPrefix: forall q Bz, g Int :: hasprefix(q, ConfirmsStoreKey(g)) ==> iskey(ConfirmStoreKey, q) && keyarg(ConfirmStoreKey, q, 0) == g
@@ -30,6 +31,16 @@ package types
 // layout fact (trusted, key-layout): PartialSignatureStoreKey(id, n, m) = PartialSignaturesStoreKey(id, n) || be64(m), and nothing
 // else is stored under that prefix - a key below an attempt's partial-signature prefix is a partial-signature record
 //@ axiom partialSigPrefix: forall q Bz, id Int, n Int :: hasprefix(q, PartialSignaturesStoreKey(id, n)) ==> iskey(PartialSignatureStoreKey, q)
+
+// layout facts (trusted, key-layout), same shape as confirmPrefix: the per-group prefix of each kind of DKG interim record
+// is the record key without its last 8-byte field, and nothing else is stored below it
+//@ axiom round1Prefix: forall q Bz, g Int :: hasprefix(q, Round1InfosStoreKey(g)) ==> iskey(Round1InfoStoreKey, q) && keyarg(Round1InfoStoreKey, q, 0) == g
+//@ axiom round2Prefix: forall q Bz, g Int :: hasprefix(q, Round2InfosStoreKey(g)) ==> iskey(Round2InfoStoreKey, q) && keyarg(Round2InfoStoreKey, q, 0) == g
+//@ axiom accCommitPrefix: forall q Bz, g Int :: hasprefix(q, AccumulatedCommitsStoreKey(g)) ==> iskey(AccumulatedCommitStoreKey, q) && keyarg(AccumulatedCommitStoreKey, q, 0) == g
+//@ axiom complainPrefix: forall q Bz, g Int :: hasprefix(q, ComplainsWithStatusesStoreKey(g)) ==> iskey(ComplainsWithStatusStoreKey, q) && keyarg(ComplainsWithStatusStoreKey, q, 0) == g
+
+// ... and conversely every record key lies below its group's prefix (it is built by appending to it)
+//@ axiom recordBelowPrefix: forall g Int, m Int :: hasprefix(Round1InfoStoreKey(g, m), Round1InfosStoreKey(g)) && hasprefix(Round2InfoStoreKey(g, m), Round2InfosStoreKey(g)) && hasprefix(ConfirmStoreKey(g, m), ConfirmsStoreKey(g)) && hasprefix(ComplainsWithStatusStoreKey(g, m), ComplainsWithStatusesStoreKey(g))
 
 //@ func (k RollingseedKeeper) GetRollingSeed
 //@ trusted
